@@ -33,7 +33,7 @@ def rebuild_case(draw, tier, prepopulate=False):
         files = []
         for f in t["files"]:
             e = {"place": draw(placement(nsearch)), "decoy": None, "pre": "none"}
-            if f["size"] > 0 and draw(st.integers(0, 2)) == 0:
+            if f["size"] > 0 and draw(st.sampled_from([True] + [False] * 2)):
                 e["decoy"] = draw(placement(nsearch))
             if prepopulate:
                 e["pre"] = draw(st.sampled_from(["none", "none", "correct", "wrong-full", "shorter", "shorter-wrong"]))
